@@ -25,6 +25,8 @@ type c02Case struct {
 	Digits int    `json:"digits"`
 	Algo   int    `json:"algo"`
 	Nil    bool   `json:"nil_param"`
+	Skew   uint64 `json:"skew,omitempty"` // generation does not use the window: must not matter
+	AppDef bool   `json:"application_changed_the_exported_defaults,omitempty"`
 }
 
 var c02Locs = func() []*time.Location {
@@ -56,6 +58,13 @@ func (c c02Case) instant() (time.Time, bool) {
 }
 
 func totpGen(c c02Case, key []byte) (obs, bad string) {
+	if c.AppDef {
+		// an application may assign the exported defaults; an EXPLICIT Param still means what it says (period 0 = 30 s)
+		sh, st := *otp.DefaultHOTPParam, *otp.DefaultTOTPParam
+		*otp.DefaultTOTPParam = otp.Param{Digits: otp.EightDigits, Period: 60, Skew: 5, Algorithm: otp.SHA512}
+		*otp.DefaultHOTPParam = otp.Param{Digits: otp.EightDigits, Period: 45, Skew: 9, Algorithm: otp.SHA256}
+		defer func() { *otp.DefaultHOTPParam, *otp.DefaultTOTPParam = sh, st }()
+	}
 	t, ok := c.instant()
 	if !ok {
 		return "skip", ""
@@ -66,7 +75,7 @@ func totpGen(c c02Case, key []byte) (obs, bad string) {
 		if c.Nil {
 			code, err = otp.GenerateTOTP(c.Secret, t, nil)
 		} else {
-			code, err = otp.GenerateTOTP(c.Secret, t, &otp.Param{Digits: otp.Digits(c.Digits), Algorithm: otp.Algorithm(c.Algo), Period: uint(c.Period)})
+			code, err = otp.GenerateTOTP(c.Secret, t, &otp.Param{Digits: otp.Digits(c.Digits), Algorithm: otp.Algorithm(c.Algo), Period: uint(c.Period), Skew: uint(c.Skew)})
 		}
 	})
 	if p != "" {
@@ -128,17 +137,26 @@ func c02(r *ev.Run) {
 		var cs []c02Case
 		for _, t := range []int64{59, 1111111109, 20000000000} {
 			for a := 0; a < 3; a++ {
-				cs = append(cs, c02Case{sp, t, 0, 0, false, 30, 8, a, false})
+				cs = append(cs, c02Case{sp, t, 0, 0, false, 30, 8, a, false, 0, false})
 			}
-			cs = append(cs, c02Case{sp, t, 999999999, 1, false, 0, 6, 0, false}, c02Case{Secret: sp, Unix: t, Nil: true})
+			cs = append(cs, c02Case{sp, t, 999999999, 1, false, 0, 6, 0, false, 0, false}, c02Case{Secret: sp, Unix: t, Nil: true})
 		}
 		for _, n := range []int{1, 16, 19, 21, 33, 64} {
-			cs = append(cs, c02Case{ref.B32Encode(patt(n, 9)), 1111111109, 0, 0, false, 30, 6, n % 3, false})
+			cs = append(cs, c02Case{Secret: ref.B32Encode(patt(n, 9)), Unix: 1111111109, Period: 30, Digits: 6, Algo: n % 3})
+		}
+		// the window field generation does not use; and explicit parameters under application-modified defaults
+		for _, sk := range []uint64{1, 10, 11, 255, 1<<64 - 1} {
+			cs = append(cs, c02Case{Secret: sp, Unix: 1111111109, Period: 30, Digits: 6, Algo: int(sk % 3), Skew: sk})
+		}
+		for _, per := range []uint64{0, 30, 60, 1} {
+			for a := 0; a < 3; a++ {
+				cs = append(cs, c02Case{Secret: sp, Unix: 1111111109, Period: per, Digits: 6 + 2*(a%2), Algo: a, AppDef: true})
+			}
 		}
 		afterWarmups(r, "totp-generate-after-other-operations", cs, func(c c02Case) (string, string) { _, key := ref.B32Classify(c.Secret); return totpGen(c, key) })
 	}
 	volume(r, "totp-generate-volume", 1100, func(k int) c02Case {
-		return c02Case{ref.B32Encode([]byte(fmt.Sprintf("volume-key-%04d-0123456789abcdefghij", k))[:10+(k*7)%27]), int64(k) * 977, 0, k % 4, false, []uint64{30, 0, 60, 1}[k%4], 6 + 2*(k%2), k % 3, false}
+		return c02Case{ref.B32Encode([]byte(fmt.Sprintf("volume-key-%04d-0123456789abcdefghij", k))[:10+(k*7)%27]), int64(k) * 977, 0, k % 4, false, []uint64{30, 0, 60, 1}[k%4], 6 + 2*(k%2), k % 3, false, 0, false}
 	}, func(c c02Case) (string, string) { _, key := ref.B32Classify(c.Secret); return totpGen(c, key) })
 	if ReplayOnly {
 		return
@@ -203,7 +221,7 @@ func c02(r *ev.Run) {
 							if !(d == 6 && a == 0) && vi != 0 && vi != int(t+int64(d)+int64(a))%32 {
 								continue
 							}
-							c := c02Case{sec, t, nsecs[vi%4], (vi / 4) % 4, vi >= 16, j.period, d, a, false}
+							c := c02Case{sec, t, nsecs[vi%4], (vi / 4) % 4, vi >= 16, j.period, d, a, false, 0, false}
 							obs, bad := totpGen(c, key)
 							if obs == "skip" {
 								continue
@@ -219,7 +237,7 @@ func c02(r *ev.Run) {
 					}
 				}
 				if j.period == 30 || j.period == 0 {
-					c := c02Case{sec, t, 1, 1, false, 0, 0, 0, true}
+					c := c02Case{sec, t, 1, 1, false, 0, 0, 0, true, 0, false}
 					obs, bad := totpGen(c, key)
 					local++
 					if bad != "" {
@@ -247,7 +265,7 @@ func c02(r *ev.Run) {
 						if pass == 1 {
 							t = instants[(i*5)%len(instants)]
 						}
-						c := c02Case{sec, t, int64(i%2) * 999999999, i % 4, false, per, d, i % 3, (per == 30 || per == 0) && d == 6 && i%3 == 0 && pass == 1}
+						c := c02Case{sec, t, int64(i%2) * 999999999, i % 4, false, per, d, i % 3, (per == 30 || per == 0) && d == 6 && i%3 == 0 && pass == 1, 0, false}
 						if c.Nil {
 							c.Algo = 0
 						}
@@ -275,7 +293,7 @@ func c02(r *ev.Run) {
 			for si, sec := range spellings(key) {
 				for _, t := range []int64{59, 1111111109} {
 					for a := 0; a < 3; a++ {
-						c := c02Case{sec, t, 0, 0, false, []uint64{30, 0}[si%2], 6 + 2*(a%2), a, false}
+						c := c02Case{sec, t, 0, 0, false, []uint64{30, 0}[si%2], 6 + 2*(a%2), a, false, 0, false}
 						obs, bad := totpGen(c, key)
 						local++
 						if bad != "" {
@@ -303,7 +321,7 @@ func c02(r *ev.Run) {
 						if pi == 1 && dt != 0 {
 							continue
 						}
-						c := c02Case{sec, t + dt, 0, li, false, per, 6, 0, false}
+						c := c02Case{sec, t + dt, 0, li, false, per, 6, 0, false, 0, false}
 						obs, bad := totpGen(c, key)
 						local++
 						if bad != "" {
@@ -324,8 +342,8 @@ func c02(r *ev.Run) {
 	if tcf1 := reflect.ValueOf(otp.TimeCounterFunc).Pointer(); tcf1 != tcf0 {
 		r.Fail("totp-generate", "TimeCounterFunc-replaced", "TimeCounterFunc", "same function value before and after", "changed")
 	}
-	r.Sample(map[string]any{"case": c02Case{spellings(keys[0])[0], 59, 999999999, 3, true, 30, 8, 0, false}, "ref": ref.HOTP(keys[0], 1, 8, 0)})
-	r.Sample(map[string]any{"case": c02Case{spellings(keys[0])[0], 89, 0, 0, false, 0, 6, 1, false}, "note": "period 0 means 30", "ref": ref.HOTP(keys[0], 2, 6, 1)})
+	r.Sample(map[string]any{"case": c02Case{spellings(keys[0])[0], 59, 999999999, 3, true, 30, 8, 0, false, 0, false}, "ref": ref.HOTP(keys[0], 1, 8, 0)})
+	r.Sample(map[string]any{"case": c02Case{spellings(keys[0])[0], 89, 0, 0, false, 0, 6, 1, false, 0, false}, "note": "period 0 means 30", "ref": ref.HOTP(keys[0], 2, 6, 1)})
 	r.Set("alphabet", map[string]any{"periods": "0..64 (every whole second of 4 steps + boundaries near 1111111100, 2^31, 2^32), 3600, 86400, 2^16, 2^31-1, 2^31, 2^32-1, 2^32 (boundaries of steps 0,1,2,top-1,top and t around 2^31, 2^32, 2^62-1)", "nsec": nsecs, "locations": "UTC,+14:00,-12:00,+05:45", "monotonic": "with/without where representable", "digits": "6,8,10", "hash": "0..2", "param": "nil/explicit"})
 	r.Rule("every (period, instant) of the grid x digits x hash through GenerateTOTP vs reference HOTP at floor(unix/period) (0 => 30), every instant also in all nsec/zone/monotonic variants, each generated code validated at its own instant; distinct = distinct (period, step, hash, output) tuples")
 	r.Assume("time.Time.Unix() of the Go standard library; crypto/hmac")
